@@ -71,7 +71,7 @@ Proof. intros H. unfold getop. destruct (Nat.ltb_spec o (length (ops s))); [rewr
 Lemma J_step s e : keyed s -> J s -> Z.of_nat (length (ops s)) < MAX -> J (step s e).
 Proof.
   intros K Hj Hlt. destruct (is_start e) eqn:He.
-  - destruct e as [k tmo| | | | | | | | | | |k tmo| ]; try discriminate; unfold step, alloc.
+  - destruct e as [k tmo| | | | | | | | | | | |k tmo| ]; try discriminate; unfold step, alloc.
     all: rewrite next_msgid_fresh; [| rewrite (j_last s Hj); lia | intros H; apply (j_inuse s Hj) in H; lia].
     all: try destruct (is_running s); constructor; cbn [last inuse ops set]; unfold getop; cbn [ops set].
     all: try (rewrite app_length, (j_last s Hj); cbn; lia).
